@@ -4,7 +4,7 @@ From Coq Require Import List Bool Arith NArith ZArith String.
 From Coq.Strings Require Import Byte.
 From Verif.Gen Require Import Registry.
 From Verif.Model Require Import Agg.
-From Verif.Proofs Require Import Agg_spec Agg_lemmas.
+From Verif.Proofs Require Import Agg_spec Agg_lemmas Agg_closed.
 Import ListNotations.
 Local Open Scope string_scope.
 Local Open Scope N_scope.
@@ -63,3 +63,151 @@ Definition reg_antrea (n : string) : bool :=
 Lemma registry_configs_wf :
   wf_config (std_config reg_antrea) = true /\ wf_config (ant_config reg_antrea) = true.
 Proof. split; vm_compute; reflexivity. Qed.
+
+(* ================================================================ the closed forms of the property statement
+   For every well-formed configuration c, every history h inside the exporter contract
+   (wf_history), every flow k whose aggregated record has abstraction f; evs = the events of k. *)
+Section Corollaries.
+Variables (c : agg_config) (h : list op) (k : key) (f : flow_abs).
+Hypothesis WF : wf_config c = true.
+Hypothesis WH : wf_history c h = true.
+Hypothesis FL : absf c (lookup (run c h) k) = Some f.
+Local Notation evs := (events_of c h k).
+
+Lemma cor_closed : closed c evs f.
+Proof. exact (history_closed c h k f WF WH FL). Qed.
+
+(* (a) the latest end time; per node, the end time of that node's latest record *)
+Lemma cor_latest_end :
+  f_end f = maxl (ends evs) /\
+    (exists x, latest evs = Some x /\ f_end f = o_end (snd x)) /\
+    (forall n, a_end (nd n f) = node_end n evs).
+Proof.
+  pose proof cor_closed as C. split; [exact (cl_fend _ _ _ C)|]. split; [exact (cl_lat _ _ _ C) | exact (cl_end _ _ _ C)].
+Qed.
+
+(* (b) total counters *)
+Lemma cor_node_total : forall n i, (i < nstats c)%nat -> is_delta c i = false ->
+  nth i (a_stat (nd n f)) 0 = node_total n i evs.
+Proof. exact (cl_tot _ _ _ cor_closed). Qed.
+Lemma cor_common_total_max : forall i, (i < nstats c)%nat -> is_delta c i = false ->
+  nth i (f_stat f) 0 = maxl (col i (fronts evs)).
+Proof. exact (cl_ctot _ _ _ cor_closed). Qed.
+Lemma cor_common_total_latest : flow_mono c evs = true ->
+  exists x, latest evs = Some x /\
+    forall i, (i < nstats c)%nat -> is_delta c i = false -> nth i (f_stat f) 0 = stat i (snd x).
+Proof.
+  intros M. pose proof cor_closed as C. destruct (cl_lat _ _ _ C) as (x & X1 & _).
+  exists x. split; [exact X1|]. exact (cl_mono _ _ _ C M x X1).
+Qed.
+
+(* (c) delta counters *)
+Lemma cor_node_delta : forall n i, (i < nstats c)%nat -> is_delta c i = true ->
+  nth i (a_stat (nd n f)) 0 = sum64 (col i (node_recs n (since_reset evs))).
+Proof. exact (cl_del _ _ _ cor_closed). Qed.
+Lemma cor_common_delta : forall i, (i < nstats c)%nat -> is_delta c i = true ->
+  nth i (f_stat f) 0 = sum64 (col i (node_recs (latest_node evs) (since_reset evs))).
+Proof.
+  intros i Hi D. pose proof cor_closed as C. rewrite (cl_cdel _ _ _ C i Hi D). exact (cl_del _ _ _ C _ i Hi D).
+Qed.
+
+(* (d) throughput *)
+Lemma cor_node_tp : forall n, a_tp (nd n f) = node_tp n evs.
+Proof. exact (cl_tp _ _ _ cor_closed). Qed.
+Lemma cor_common_tp : f_tp f = node_tp (latest_node evs) evs.
+Proof. pose proof cor_closed as C. rewrite (cl_ctp _ _ _ C). exact (cl_tp _ _ _ C _). Qed.
+
+(* the common fields are the fields of the node that reported the latest end time *)
+Lemma cor_common_follows :
+  f_end f = a_end (nd (latest_node evs) f) /\ f_tp f = a_tp (nd (latest_node evs) f) /\
+    forall i, (i < nstats c)%nat -> is_delta c i = true ->
+    nth i (f_stat f) 0 = nth i (a_stat (nd (latest_node evs) f)) 0.
+Proof.
+  pose proof cor_closed as C. split; [symmetry; exact (cl_lnode _ _ _ C)|].
+  split; [exact (cl_ctp _ _ _ C) | exact (cl_cdel _ _ _ C)].
+Qed.
+End Corollaries.
+
+(* (e) a reset clears the delta and throughput fields of the flow and nothing else ... *)
+Lemma cor_reset_clears : forall c h k f, wf_config c = true -> wf_history c h = true ->
+  absf c (lookup (run c h) k) = Some f ->
+  exists f', absf c (lookup (run c (h ++ [OpReset k])) k) = Some f' /\
+    (forall n, a_end (nd n f') = a_end (nd n f) /\ a_tp (nd n f') = [0; 0] /\
+    forall i, (i < nstats c)%nat ->
+         nth i (a_stat (nd n f')) 0 = if is_delta c i then 0 else nth i (a_stat (nd n f)) 0) /\
+    f_end f' = f_end f /\ f_tp f' = [0; 0] /\ f_reason f' = f_reason f /\ f_tcp f' = f_tcp f /\
+    (forall i, (i < nstats c)%nat -> nth i (f_stat f') 0 = if is_delta c i then 0 else nth i (f_stat f) 0).
+Proof.
+  intros c h k f WF WH FL. pose proof (history_closed c h k f WF WH FL) as C.
+  exists (spec_reset c f). split.
+  { rewrite (reset_refines_history c h k WF (wf_history_typed c h WH)), FL. reflexivity. }
+  split.
+  { intros n. pose proof (cl_tp _ _ _ C n) as T. destruct (node_tp_two n (events_of c h k)) as (a & b & E).
+    rewrite E in T. pose proof (cl_len _ _ _ C n) as L.
+    destruct n; cbn [nd] in *; cbn [spec_reset f_src f_dst reset_node a_end a_tp a_stat]; rewrite T;
+      (split; [reflexivity|]; split; [reflexivity|]; intros i Hi; apply zero_deltas_nth; assumption). }
+  cbn [spec_reset f_end f_tp f_reason f_tcp f_stat].
+  split; [reflexivity|]. split.
+  { rewrite (cl_ctp _ _ _ C), (cl_tp _ _ _ C).
+    destruct (node_tp_two (latest_node (events_of c h k)) (events_of c h k)) as (a & b & E). rewrite E. reflexivity. }
+  split; [reflexivity|]. split; [reflexivity|].
+  intros i Hi. apply zero_deltas_nth; [exact (cl_lenc _ _ _ C) | exact Hi].
+Qed.
+(* ... and the delta fields that follow are the sums over the records since that reset *)
+Lemma cor_delta_since_reset : forall c h1 h2 k f, wf_config c = true ->
+  wf_history c (h1 ++ OpReset k :: h2) = true -> no_reset_of k h2 = true ->
+  absf c (lookup (run c (h1 ++ OpReset k :: h2)) k) = Some f ->
+  forall n i, (i < nstats c)%nat -> is_delta c i = true ->
+    nth i (a_stat (nd n f)) 0 = sum64 (col i (node_recs n (events_of c h2 k))).
+Proof.
+  intros c h1 h2 k f WF WH NR FL n i Hi D.
+  rewrite (cor_node_delta c _ k f WF WH FL n i Hi D), (since_reset_history c h1 h2 k NR). reflexivity.
+Qed.
+
+(* how node_tp reads on the node's record list; one flow record per distinct 5-tuple *)
+Lemma cor_throughput_reading : forall n evs,
+  (forall o, node_recs n evs = [o] -> node_recs n (since_reset evs) <> [] ->
+     node_tp n evs = [mul8 (o_oct o) / (o_end o - o_start o); mul8 (o_roct o) / (o_end o - o_start o)]) /\
+  (forall l p o, node_recs n evs = (l ++ [p; o])%list -> node_recs n (since_reset evs) <> [] ->
+     node_tp n evs = [mul8 (o_oct o - o_oct p) / (o_end o - o_end p);
+                      mul8 (o_roct o - o_roct p) / (o_end o - o_end p)]) /\
+  (node_recs n (since_reset evs) = [] -> node_tp n evs = [0; 0]).
+Proof.
+  intros n evs. split; [exact (node_tp_first n evs)|]. split; [exact (node_tp_next n evs) | exact (node_tp_cleared n evs)].
+Qed.
+Lemma cor_one_flow_per_key : forall c h, wf_config c = true -> typed_history c h = true ->
+  List.length (run c h) = List.length (flow_keys h) /\
+  forall k, lookup (run c h) k <> None <-> In k (flow_keys h).
+Proof.
+  intros c h WF TY. split; [exact (flow_count c h WF TY) | intros k; exact (flow_exists_iff c h k WF TY)].
+Qed.
+
+(* ---------------------------------------------------------------- non-vacuity of the contract *)
+Lemma ex_history_wf : wf_history ex_cfg ex_history = true.
+Proof. vm_compute. reflexivity. Qed.
+(* with a reset between the second and the third record *)
+Definition ex_history_reset : list op :=
+  [OpRec (ex_rec true 10 1000 1000); OpRec (ex_rec true 20 3000 2000); OpReset ex_key;
+   OpRec (ex_rec false 12 900 900); OpRec (ex_rec false 25 2800 1900); OpRec (ex_rec true 30 3500 500)].
+Lemma ex_history_reset_wf : wf_history ex_cfg ex_history_reset = true.
+Proof. vm_compute. reflexivity. Qed.
+(* the worked history is inside the per-node contract but outside the flow-level precondition of
+   "common total = latest value": the destination reports the latest end time (25) with octet
+   total 2800 after the source's 3000; the common octet total stays 3000 = max *)
+Lemma ex_history_not_flow_mono :
+  flow_mono ex_cfg (events_of ex_cfg ex_history ex_key) = false /\
+    option_map (fun fl => nth 2 (f_stat (abs ex_cfg (fl_rec fl))) 0) (lookup (run ex_cfg ex_history) ex_key) = Some 3000 /\
+    option_map (fun x : frec => stat 2 (snd x)) (latest (events_of ex_cfg ex_history ex_key)) = Some 2800.
+Proof. repeat split; vm_compute; reflexivity. Qed.
+Lemma ex_history_prefix_flow_mono :
+  wf_history ex_cfg (firstn 2 ex_history) = true /\
+    flow_mono ex_cfg (events_of ex_cfg (firstn 2 ex_history) ex_key) = true.
+Proof. split; vm_compute; reflexivity. Qed.
+(* outside the contract: the source's end time does not increase *)
+Lemma ex_breach_not_wf :
+  wf_history ex_cfg [OpRec (ex_rec true 10 1000 1000); OpRec (ex_rec true 10 3000 2000)] = false.
+Proof. vm_compute. reflexivity. Qed.
+Lemma ex_contract_examples :
+  wf_history ex_cfg ex_history = true /\ wf_history ex_cfg ex_history_reset = true /\
+  wf_history ex_cfg [OpRec (ex_rec true 10 1000 1000); OpRec (ex_rec true 10 3000 2000)] = false.
+Proof. exact (conj ex_history_wf (conj ex_history_reset_wf ex_breach_not_wf)). Qed.
